@@ -43,18 +43,20 @@ Definition changed (A B:schema) (r:objref) : Prop :=
   | RColumn t n => look_col A t n <> look_col B t n
   | RCons t n => look_cons A t n <> look_cons B t n
   | RFk t n => look_fk A t n <> look_fk B t n
+  | RUUq _ _ => False           (* no unnamed unique constraints in the class C07 covers *)
   end.
 
 Definition nd_schema (S:schema) : Prop :=
   NoDup (keys t_name S) /\ forall t, In t S -> nd_table t /\ NoDup (keys f_name (t_fks t)).
 Definition dok_schema (S:schema) : Prop := forall t, In t S -> dok_table t.
+Definition named_schema (S:schema) : Prop := forall t, In t S -> t_uuqs t = [].
 
-Lemma ciu_local tn ct mt o : In o (compare_indexes_and_uniques tn ct mt) ->
+Lemma ciu_local tn ct mt o : no_uuq mt -> In o (compare_indexes_and_uniques tn ct mt) ->
   match ct with Some c => NoDup (keys k_name (t_cons c)) | None => True end ->
   match mt with Some m => NoDup (keys k_name (t_cons m)) | None => True end ->
   exists n, op_target o = RCons tn n /\
     match ct with Some c => kfind k_name n (t_cons c) | None => None end <> match mt with Some m => kfind k_name n (t_cons m) | None => None end.
-Proof. unfold compare_indexes_and_uniques. rewrite !in_app_iff, !in_flat_map. intros [[x [Hx H]]|[[x [Hx H]]|[x [Hx H]]]] Hc Hm.
+Proof. intros Hu. rewrite (ciu_no_unnamed tn ct mt Hu). unfold ciu_named. rewrite !in_app_iff, !in_flat_map. intros [[x [Hx H]]|[[x [Hx H]]|[x [Hx H]]]] Hc Hm.
   - destruct (memN _ _) eqn:E; [inversion H|]. apply obj_removed_In in H. subst o. exists (k_name x). split; auto.
     apply memN_false_kfind in E.
     destruct ct as [c|]; [|inversion Hx].
@@ -145,15 +147,15 @@ Proof. unfold diff. rewrite in_compare_tables. unfold reflect_sqlite. rewrite (k
 Qed.
 
 (* every emitted operation is about an object whose lookup differs between the two schemas *)
-Theorem diff_local g A B o : nd_schema A -> nd_schema B -> dok_schema B -> In o (diff g (reflect_sqlite A) B) -> changed A B (op_target o).
-Proof. intros [HAn HAt] [HBn HBt] HBd. rewrite in_diff_reflect.
+Theorem diff_local g A B o : nd_schema A -> nd_schema B -> dok_schema B -> named_schema B -> In o (diff g (reflect_sqlite A) B) -> changed A B (op_target o).
+Proof. intros [HAn HAt] [HBn HBt] HBd HBu. rewrite in_diff_reflect.
   intros [[m [Hm [E H]]]|[[c [Hc [E H]]]|[m [c [Hm [E H]]]]]].
   - destruct H as [<-|H].
     + simpl. left. unfold look_table. rewrite E, (kfind_nodup t_name m B); auto. split; congruence.
-    + destruct (HBt m Hm) as [[_ Hk] _]. apply ciu_local in H; auto. destruct H as [n [-> Hne]]. simpl.
+    + destruct (HBt m Hm) as [[_ Hk] _]. apply ciu_local in H; auto; [|apply (HBu m Hm)]. destruct H as [n [-> Hne]]. simpl.
       unfold look_cons. rewrite E, (kfind_nodup t_name m B); auto.
   - unfold removed_table in H. apply in_app_iff in H. cbn [reflect_table t_name] in H. destruct H as [H|[<-|[]]].
-    + destruct (HAt c Hc) as [[_ Hk] _]. apply ciu_local in H; auto. destruct H as [n [-> Hne]]. simpl.
+    + destruct (HAt c Hc) as [[_ Hk] _]. apply ciu_local in H; simpl; auto. destruct H as [n [-> Hne]]. simpl.
       unfold look_cons. rewrite E, (kfind_nodup t_name c A); auto.
     + simpl. right. unfold look_table. rewrite E, (kfind_nodup t_name c A); auto. split; congruence.
   - destruct (kfind_some _ _ _ _ E) as [Hc _]. destruct (HAt c Hc) as [[Hcc Hck] Hcf]. destruct (HBt m Hm) as [[Hmc Hmk] Hmf].
@@ -161,7 +163,7 @@ Proof. intros [HAn HAt] [HBn HBt] HBd. rewrite in_diff_reflect.
     assert (HB: kfind t_name (t_name m) B = Some m) by (apply kfind_nodup; auto).
     destruct H as [H|[H|[H|H]]].
     + destruct (cols_local g (t_name m) c m o Hcc Hmc (HBd m Hm) (or_introl H)) as [n [-> Hne]]. simpl. unfold look_col. rewrite E, HB. auto.
-    + apply ciu_local in H; auto. destruct H as [n [-> Hne]]. simpl. unfold look_cons. rewrite E, HB. auto.
+    + apply ciu_local in H; auto; [|apply (HBu m Hm)]. destruct H as [n [-> Hne]]. simpl. unfold look_cons. rewrite E, HB. auto.
     + rewrite cfk_reflect in H. apply (cfk_local (t_name m) c m) in H; auto. destruct H as [n [-> Hne]]. simpl. unfold look_fk. rewrite E, HB. auto.
     + destruct (cols_local g (t_name m) c m o Hcc Hmc (HBd m Hm) (or_intror H)) as [n [-> Hne]]. simpl. unfold look_col. rewrite E, HB. auto.
 Qed.
@@ -178,8 +180,9 @@ Lemma changed_on_table A t f tb r : (forall x, t_name (f x) = t_name x) -> kfind
   | RColumn t' n => t' = t /\ kfind c_name n (t_cols tb) <> kfind c_name n (t_cols (f tb))
   | RCons t' n => t' = t /\ kfind k_name n (t_cons tb) <> kfind k_name n (t_cons (f tb))
   | RFk t' n => t' = t /\ kfind f_name n (t_fks tb) <> kfind f_name n (t_fks (f tb))
+  | RUUq _ _ => False
   end.
-Proof. intros Hf Ht. unfold on_table. destruct r as [n|t' n|t' n|t' n]; simpl.
+Proof. intros Hf Ht. unfold on_table. destruct r as [n|t' n|t' n|t' n|t' n]; simpl; [| | | |tauto].
   - unfold look_table. rewrite kfind_kupdate; auto. destruct (N.eqb t n); [|tauto].
     destruct (kfind t_name n A); simpl; intros [[? ?]|[? ?]]; congruence.
   - unfold look_col. rewrite kfind_kupdate; auto. destruct (N.eqb_spec t t') as [<-|Hne]; [|tauto].
@@ -205,12 +208,12 @@ Proof. intros H. apply kfind_some in H. destruct H as [H1 H2]. unfold inside. ri
 
 Ltac on_tab Ha Hc A t r lem :=
   apply in_table_some in Ha; destruct Ha as [tb [Htb Hp]];
-  apply (changed_on_table A t _ tb r lem Htb) in Hc; left; destruct r as [n|t' n|t' n|t' n]; simpl in Hc; try tauto;
+  apply (changed_on_table A t _ tb r lem Htb) in Hc; left; destruct r as [n|t' n|t' n|t' n|t' n]; simpl in Hc; try tauto;
   destruct Hc as [-> Hc].
 
 Lemma changed_touches A m r : applicable m A = true -> changed A (apply_mut m A) r -> In r (touches A m).
 Proof. intros Ha Hc. destruct m as [t|n0|t c|t c|t c|t c y|t c d|t k|t n0|t k|t f|t n0]; simpl in *.
-  - (* add table *) destruct r as [n|t' n|t' n|t' n]; simpl in Hc.
+  - (* add table *) destruct r as [n|t' n|t' n|t' n|t' n]; simpl in Hc; [| | | |tauto].
     + unfold look_table in Hc. rewrite kfind_app, kfind_single in Hc. left.
       destruct (kfind t_name n A); [destruct Hc as [[? ?]|[? ?]]; congruence|].
       destruct (N.eqb_spec (t_name t) n); [congruence|]. destruct Hc as [[? ?]|[? ?]]; congruence.
@@ -224,7 +227,7 @@ Proof. intros Ha Hc. destruct m as [t|n0|t c|t c|t c|t c y|t c d|t k|t n0|t k|t 
       destruct (kfind t_name t' A); [congruence|]. destruct (N.eqb_spec (t_name t) t') as [<-|]; [|congruence].
       destruct (kfind f_name n (t_fks t)) eqn:E; [|congruence]. eapply inside_fk; eauto.
   - (* drop table *) apply memN_true_kfind in Ha. destruct Ha as [tb Htb]. rewrite Htb.
-    destruct (kfind_some _ _ _ _ Htb) as [_ Hn]. destruct r as [n|t' n|t' n|t' n]; simpl in Hc.
+    destruct (kfind_some _ _ _ _ Htb) as [_ Hn]. destruct r as [n|t' n|t' n|t' n|t' n]; simpl in Hc; [| | | |tauto].
     + unfold look_table in Hc. rewrite kfind_kremove in Hc. left. destruct (N.eqb_spec n0 n); [congruence|].
       destruct Hc as [[? ?]|[? ?]]; congruence.
     + unfold look_col in Hc. rewrite kfind_kremove in Hc. destruct (N.eqb_spec n0 t') as [<-|]; [|congruence].
@@ -315,9 +318,9 @@ Proof. intros Htb Hx Hf [o [Ho [Hk Ht]]]. destruct (kfind_some _ _ _ _ Htb) as [
   cbn [with_cols t_cols t_name reflect_table]. split; [apply in_kupdate_of; auto|].
   rewrite (kfind_map c_name reflect_col reflect_col_name), Hf, Hxn, Hx, Hn. exact Ho. Qed.
 
-Theorem detects_catalogue g A m : nd_schema A -> dok_schema A -> applicable m A = true -> enabled g m = true ->
+Theorem detects_catalogue g A m : nd_schema A -> dok_schema A -> named_schema A -> applicable m A = true -> enabled g m = true ->
   detects A m (diff g (reflect_sqlite A) (apply_mut m A)).
-Proof. intros [HAn HAt] HAd Ha He k Hk. destruct m as [t|n0|t c|t c|t c|t c y|t c d|t kk|t n0|t kk|t f|t n0]; simpl in *.
+Proof. intros [HAn HAt] HAd HAu Ha He k Hk. destruct m as [t|n0|t c|t c|t c|t c y|t c d|t kk|t n0|t kk|t f|t n0]; simpl in *.
   - (* add table *) destruct Hk as [<-|[]]. exists (OpCreateTable (create_table_of t)). split; [|auto].
     rewrite in_diff_reflect. left. exists t. split; [apply in_or_app; simpl; auto|]. split.
     + apply negb_true_iff in Ha. apply memN_false_kfind; auto.
@@ -355,7 +358,7 @@ Proof. intros [HAn HAt] HAd Ha He k Hk. destruct m as [t|n0|t c|t c|t c|t c y|t 
     destruct (kfind_some _ _ _ _ Htb) as [Hin Hn]. apply negb_true_iff in Hp.
     exists (OpAddCons t kk). split; [|split; auto]. 2:{ destruct kk; reflexivity. }
     eapply in_diff_on_table; eauto. apply in_ciu.
-    unfold compare_indexes_and_uniques. cbn [orb negb]. apply in_or_app. right. apply in_or_app. right.
+    rewrite ciu_no_unnamed; [|simpl; apply (HAu tb Hin)]. unfold ciu_named. cbn [orb negb]. apply in_or_app. right. apply in_or_app. right.
     apply in_flat_map. exists kk. cbn [with_cons t_cons t_name reflect_table]. split; [apply in_or_app; simpl; auto|].
     rewrite Hp, obj_added_true, Hn. left; auto.
   - (* drop cons *) apply in_table_some in Ha. destruct Ha as [tb [Htb Hp]].
@@ -364,7 +367,7 @@ Proof. intros [HAn HAt] HAd Ha He k Hk. destruct m as [t|n0|t c|t c|t c|t c y|t 
     unfold in_table in Hk. rewrite Htb, Hx in Hk. destruct Hk as [<-|[]].
     exists (OpDropCons t (is_ix x) n0). split; [|split; auto]. 2:{ destruct (is_ix x); reflexivity. }
     eapply in_diff_on_table; eauto. apply in_ciu.
-    unfold compare_indexes_and_uniques. cbn [orb negb]. apply in_or_app. left.
+    rewrite ciu_no_unnamed; [|simpl; apply (HAu tb Hin)]. unfold ciu_named. cbn [orb negb]. apply in_or_app. left.
     apply in_flat_map. exists x. cbn [with_cons t_cons t_name reflect_table]. split; auto.
     rewrite memN_keys, kfind_kremove, Hxn, N.eqb_refl, obj_removed_true, Hxn, Hn. left; auto.
   - (* change cons *) apply in_table_some in Ha. destruct Ha as [tb [Htb Hp]].
@@ -373,7 +376,7 @@ Proof. intros [HAn HAt] HAd Ha He k Hk. destruct m as [t|n0|t c|t c|t c|t c y|t 
     assert (Hops: forall o, In o (obj_changed t x kk) ->
                     In o (diff g (reflect_sqlite A) (on_table t (with_cons (kupdate k_name (k_name kk) (fun _ => kk))) A))).
     { intros o Ho. eapply in_diff_on_table; eauto. apply in_ciu.
-      unfold compare_indexes_and_uniques. cbn [orb negb]. apply in_or_app. right. apply in_or_app. left.
+      rewrite ciu_no_unnamed; [|simpl; apply (HAu tb Hin)]. unfold ciu_named. cbn [orb negb]. apply in_or_app. right. apply in_or_app. left.
       apply in_flat_map. exists kk. cbn [with_cons t_cons t_name reflect_table]. split.
       - apply (in_kupdate_of k_name (k_name kk) (fun _ => kk) (t_cons tb) x); auto.
       - rewrite Hx, Hi, Hs, Hn. auto. }
@@ -396,9 +399,9 @@ Proof. intros [HAn HAt] HAd Ha He k Hk. destruct m as [t|n0|t c|t c|t c|t c y|t 
     split; auto. rewrite Hp, Hxn, Hn. left; auto.
 Qed.
 
-Theorem nothing_else_catalogue g A m : nd_schema A -> nd_schema (apply_mut m A) -> dok_schema (apply_mut m A) -> applicable m A = true ->
-  nothing_else A m (diff g (reflect_sqlite A) (apply_mut m A)).
-Proof. intros HA HB HBd Ha o Ho. apply changed_touches; auto. eapply diff_local; eauto. Qed.
+Theorem nothing_else_catalogue g A m : nd_schema A -> nd_schema (apply_mut m A) -> dok_schema (apply_mut m A) -> named_schema (apply_mut m A) ->
+  applicable m A = true -> nothing_else A m (diff g (reflect_sqlite A) (apply_mut m A)).
+Proof. intros HA HB HBd HBu Ha o Ho. apply changed_touches; auto. eapply diff_local; eauto. Qed.
 
 (* ================================================================ decider, model *)
 Lemma objref_eqb_eq a b : objref_eqb a b = true -> a = b.
@@ -424,8 +427,12 @@ Proof. intros H. pose proof (wf_schema_ndf _ H) as Hf. apply wf_schema_nd in H. 
 Lemma dok_of_defaults_ok S : defaults_ok S = true -> dok_schema S.
 Proof. intros H. exact (defaults_ok_dok S H). Qed.
 
+Lemma named_of_no_unnamed S : no_unnamed_uq S = true -> named_schema S.
+Proof. intros H. exact (no_unnamed_uq_nil S H). Qed.
+
 Theorem model_C07_holds i : inclass_C07 i = true -> C07_holds i (model_C07 i).
-Proof. destruct i as [A m]. unfold inclass_C07. simpl. rewrite !andb_true_iff. intros [[[[[[HA Ha] HB] HdA] HdB] _] _].
+Proof. destruct i as [A m]. unfold inclass_C07. simpl. rewrite !andb_true_iff. intros [[[[[[[[HuA HuB] HA] Ha] HB] HdA] HdB] _] _].
+  apply named_of_no_unnamed in HuA. apply named_of_no_unnamed in HuB.
   apply wf_nd_schema in HA. apply wf_nd_schema in HB. apply dok_of_defaults_ok in HdA. apply dok_of_defaults_ok in HdB.
   unfold C07_holds, model_C07. simpl. split; [reflexivity|].
   intros g ops Hin.
